@@ -5,7 +5,9 @@ stdin : {"cases": [CASE, ...]}
   CASE (plateau) = {"kind": "plateau", "coord": "float"|"float32"|"int"|"datetime", "xdtype": "int32" (optional, coord int),
                     "x": [hex-float strings (float32: the exact value) | ints (int64 values / datetime64[ns] ticks)],
                     "y": [hex-float strings], "ydtype": "float64"|"float32"|"int64"|"int32",
-                    "atol": hex-float, "min_n": int}
+                    "atol": hex-float, "min_n": int,
+                    optional attachments of the series: "var": [hex-float] (variances of the data, float dtypes only),
+                    "mask": [0|1] (a mask 'bad' along t), "extra": [int] (a further int64 coordinate 'sp' along t)}
   CASE (phase)   = {"kind": "phase", "f": [hex-float], "fdtype": "float64"|"float32"|"int64",
                     "ref": hex-float, "rtol": hex-float}
   CASE (history) = {"kind": "history", "objects": [OBJ, ...], "steps": [STEP, ...]}
@@ -29,6 +31,9 @@ stdout: 'RESULT <json>' with, per case,
            {"bins": [[ [x, y], ... ] per plateau], "begin_end": [[b, e], ...] (positions in scipp's bin buffer),
             "plateau_coord": [...], "collapsed": [[mean, low, high], ...] | {"error": cls}}
            (x: hex-float or int, y/mean: hex-float; low/high like x)
+           + "bin_meta": names of the coordinates / masks of the bin content and whether it has variances,
+             "att_bins": per plateau, per point [variance | null, mask | null, sp | null] (when anything is attached),
+             "collapsed_var": [hex-float per plateau] | null, "collapsed_masks": [names]
   phase:   {"kept": [[index, hex-float], ...]}  or {"error": cls}
   history: {"steps": [null (set / pset) | plateau result + {"x", "y": content of the object at the call, "fresh_same": bool,
                       "fresh": result on the copy when different} | {"bins" (content of plateaus_k at the call), "collapsed",
@@ -87,7 +92,36 @@ def atol_unit(kind):
 
 
 def make_da(c):
-    return sc.DataArray(data_var(c.get('ydtype'), c['y']), coords={'t': coord_var(c['coord'], c['x'], c.get('xdtype'))})
+    """the series; optional attachments: "var" (variances of the data, float dtypes), "mask" (a mask 'bad' along t),
+    "extra" (a further int64 coordinate 'sp' along t)"""
+    data = data_var(c.get('ydtype'), c['y'])
+    if c.get('var') is not None:
+        data.variances = data_elems(c.get('ydtype'), c['var'])
+    da = sc.DataArray(data, coords={'t': coord_var(c['coord'], c['x'], c.get('xdtype'))})
+    if c.get('extra') is not None:
+        da.coords['sp'] = sc.array(dims=['t'], values=np.array(c['extra'], dtype='int64'), unit=None)
+    if c.get('mask') is not None:
+        da.masks['bad'] = sc.array(dims=['t'], values=np.array(c['mask'], dtype=bool))
+    return da
+
+
+def att_content(p):
+    """what travels with every point of every bin besides (t, value): [variance | None, mask | None, sp | None]"""
+    out = []
+    for b in p:
+        bv = b.value
+        n = len(bv)
+        va = bv.variances
+        ma = bv.masks['bad'].values if 'bad' in bv.masks else None
+        ex = bv.coords['sp'].values if 'sp' in bv.coords else None
+        out.append([[None if va is None else fh(va[i]), None if ma is None else int(bool(ma[i])),
+                     None if ex is None else int(ex[i])] for i in range(n)])
+    return out
+
+
+def bin_meta(p):
+    buf = p.bins.constituents['data']
+    return {'coords': sorted(buf.coords.keys()), 'masks': sorted(buf.masks.keys()), 'has_var': buf.variances is not None}
 
 
 def bins_content(p, kind):
@@ -105,7 +139,10 @@ def observe_collapse(p, kind):
         col = collapse_plateaus(p, coord='t')
         edges = col.coords['t'].values
         means = col.values
+        cvar = col.variances
         return {'collapsed': [[fh(m), cx(e[0]), cx(e[1])] for m, e in zip(means, edges)],
+                'collapsed_var': None if cvar is None else [fh(v) for v in cvar],
+                'collapsed_masks': sorted(col.masks.keys()),
                 'collapsed_dims': list(col.coords['t'].dims),
                 'collapsed_dtypes': [str(col.dtype), str(col.coords['t'].dtype)]}
     except Exception as ex:
@@ -126,6 +163,10 @@ def observe_find(da, kind, atol, min_n):
     out['plateau_coord'] = [int(v) for v in p.coords['plateau'].values]
     out['dims'] = list(p.dims)
     out['dtypes'] = [str(cons['data'].dtype), str(cons['data'].coords['t'].dtype)]
+    out['bin_meta'] = bin_meta(p)
+    if out['bin_meta'] != {'coords': ['t'], 'masks': [], 'has_var': False} or len(da.coords) > 1 or len(da.masks) > 0 \
+            or da.variances is not None:
+        out['att_bins'] = att_content(p)
     out['input_unchanged'] = bool(np.array_equal(da.coords['t'].values, x_before)
                                   and np.array_equal(da.values, y_before))
     out.update(observe_collapse(p, kind))
